@@ -532,11 +532,8 @@ def run(ctx):
     if n_sites == 0:
         rn.ok("no C-string conversions in the coding classes", "")
 
-    r = rep.rule("R-VALUE-COMPARE", "the engine decides 'unchanged' by comparing the encoded value vectors", floor=1)
-    f = prog.fn("BuildEngineImpl::taskIsComplete")
-    cmp_ = [n for n in f.nodes if n.get("k") == "call" and n.get("op") == "==" and "result.value" in expr_str(n)]
-    ok = len(cmp_) == 1 and "vector" in (cmp_[0].get("fn") or "") or (len(cmp_) == 1 and "std::operator==" in (cmp_[0].get("fn") or ""))
-    r.check(ok, "taskIsComplete|vector-equality", "", "unchanged-value test is %s" % [expr_str(c) for c in cmp_], f)
+    from rules import engine as E_
+    E_.r_value_compare(prog, rep)
 
 
 def prog_type(f, call):
